@@ -578,6 +578,73 @@ func c20Lifecycle(c *harness.Ctx, idx *int) {
 			w.WaitServeDone()
 			return "", ""
 		}},
+		{"ipv6-peer-port-and-local-address", func(w *world.World) (string, string) {
+			// an IPv6 peer with a local address and a non-default port, and an IPv4 peer with another port:
+			// the dial goes to exactly that address and port, from that local address, and a full session
+			// comes up over IPv6 in both directions
+			s := w.NewServer(libIP)
+			est := map[string]bool{}
+			var from6 string
+			w.NW.OnDial("[fd00::2]:1790", func(att int, from *net.TCPAddr) vnet.DialOutcome {
+				from6 = from.IP.String()
+				return vnet.DialOutcome{Kind: vnet.DialAccept, Serve: func(cn *vnet.Conn) {
+					r := w.NewRemote(cn, "P6")
+					defer r.Finish()
+					est["out6"] = reach(r, stEstablished, 65006, 90)
+					r.Deadline(0)
+					r.Drain()
+				}}
+			})
+			w.NW.OnDial("10.0.0.2:1179", func(att int, from *net.TCPAddr) vnet.DialOutcome {
+				return vnet.DialOutcome{Kind: vnet.DialAccept, Serve: func(cn *vnet.Conn) {
+					r := w.NewRemote(cn, "P1")
+					defer r.Finish()
+					est["out4"] = reach(r, stEstablished, 65002, 90)
+					r.Deadline(0)
+					r.Drain()
+				}}
+			})
+			p6 := corebgp.PeerConfig{RemoteAddress: netip.MustParseAddr("fd00::2"), LocalAS: 65001, RemoteAS: 65006}
+			if err := s.AddPeer(p6, &world.Plugin{W: w, Peer: "P6", Marker: true}, corebgp.WithLocalAddress(netip.MustParseAddr("fd00::1")), corebgp.WithPort(1790), corebgp.WithDialerControl(w.DialControl("P6"))); err != nil {
+				return "rejects-usable-config", "IPv6 peer with IPv6 local address and port 1790: " + err.Error()
+			}
+			if err := s.AddPeer(peerConfig(remIP, 65001, 65002), &world.Plugin{W: w, Peer: "P1", Marker: true}, corebgp.WithPort(1179), corebgp.WithDialerControl(w.DialControl("P1"))); err != nil {
+				return "rejects-usable-config", "IPv4 peer with port 1179: " + err.Error()
+			}
+			p7 := corebgp.PeerConfig{RemoteAddress: netip.MustParseAddr("fd00::7"), LocalAS: 65001, RemoteAS: 65007}
+			if err := s.AddPeer(p7, &world.Plugin{W: w, Peer: "P7", Marker: true}, corebgp.WithPassive(), corebgp.WithLocalAddress(netip.MustParseAddr("fd00::1"))); err != nil {
+				return "rejects-usable-config", "passive IPv6 peer: " + err.Error()
+			}
+			w.Serve(libAddr, "[fd00::1]:179")
+			vrt.Sleep(2 * time.Second)
+			want := map[string]string{"P6": "[fd00::2]:1790", "P1": "10.0.0.2:1179"}
+			for _, ev := range w.Log {
+				if ev.Kind == "dial" && want[ev.Peer] != "" && ev.Text != want[ev.Peer] {
+					return "dial-to-wrong-address", fmt.Sprintf("peer %s is configured for %s but corebgp dialled %s", ev.Peer, want[ev.Peer], ev.Text)
+				}
+			}
+			if !est["out6"] {
+				return "ipv6-peer-not-established", "the outbound session to the IPv6 peer [fd00::2]:1790 did not come up"
+			}
+			if from6 != "fd00::1" {
+				return "dial-from-wrong-address", fmt.Sprintf("the IPv6 peer has local address fd00::1 but the connection came from %s", from6)
+			}
+			if !est["out4"] {
+				return "peer-with-port-not-established", "the outbound session to 10.0.0.2:1179 did not come up"
+			}
+			cn, err := w.NW.DialIn("[fd00::7]:40000", "[fd00::1]:179")
+			if err != nil {
+				return "setup", err.Error()
+			}
+			r := w.NewRemote(cn, "P7")
+			r.Deadline(2 * time.Second)
+			if !reach(r, stEstablished, 65007, 90) {
+				return "ipv6-inbound-not-established", "an inbound connection of the passive IPv6 peer to its configured local address did not establish"
+			}
+			w.Close()
+			w.WaitServeDone()
+			return "", ""
+		}},
 		{"serve-after-close", func(w *world.World) (string, string) {
 			s := w.NewServer(libIP)
 			w.Serve(libAddr)
@@ -688,7 +755,7 @@ func c20Check(c *harness.Ctx) {
 func init() {
 	harness.Register(&harness.Check{
 		Property: "C20", Level: "model_checking", NeedsConc: true, QuickS: 250, ThoroughS: 1500,
-		Rule:   "(d) the full validation grid: router id kinds, remote x local address kinds {invalid/none, v4, v6, v4-in-v6} x local AS x remote AS {0,1,65535,65536,2^32-1} x hold {0,1,2,3,90,65535} x port {-1,0,1,179,65535,65536} x passive (28 800 configurations) against the rejection predicate of the property; (a) all operation sequences up to length 5 (6 thorough) over {Add, Add with other AS, Delete, Get} x {A,B} + List in the phases never-served / serving / closed against a reference map; (b) two or three concurrent clients with 1-2 operations on colliding keys, with Serve before / concurrently / never and Close concurrently or afterwards: all schedules within the delay bound (3 quick / 4 thorough), every complete history checked for linearizability against the map model with porcupine, race detector on; (c) lifecycle scenarios in virtual time (delete stops dialling, re-add, passive peers never dial - also after an inbound session ended, Close before/without Serve); distinct_nontrivial = judged configurations + sequences + distinct outcomes",
+		Rule:   "(d) the full validation grid: router id kinds, remote x local address kinds {invalid/none, v4, v6, v4-in-v6} x local AS x remote AS {0,1,65535,65536,2^32-1} x hold {0,1,2,3,90,65535} x port {-1,0,1,179,65535,65536} x passive (28 800 configurations) against the rejection predicate of the property; (a) all operation sequences up to length 5 (6 thorough) over {Add, Add with other AS, Delete, Get} x {A,B} + List in the phases never-served / serving / closed against a reference map; (b) two or three concurrent clients with 1-2 operations on colliding keys, with Serve before / concurrently / never and Close concurrently or afterwards: all schedules within the delay bound (3 quick / 4 thorough), every complete history checked for linearizability against the map model with porcupine, race detector on; (c) lifecycle scenarios in virtual time (delete stops dialling, re-add, passive peers never dial - also after an inbound session ended, Close before/without Serve, IPv6 peers with local address and non-default ports in both directions); distinct_nontrivial = judged configurations + sequences + distinct outcomes",
 		Assume: []string{"IPv4-mapped IPv6 addresses paired with another family are not judged (property silent)", "delay-bounded schedules for (b)"},
 		Run:    c20Check,
 		Replay: func(c *harness.Ctx, raw json.RawMessage) {
